@@ -15,20 +15,20 @@ import (
 	"strings"
 )
 
-const mT = int64(1_000_000_000)
+const cliMT = int64(1_000_000_000)
 
-func genMulti(r *Rng, v6 bool) (mScenario, []string) {
+func cliGenMulti(r *Rng, v6 bool) (cliMScenario, []string) {
 	if r.Chance(1, 6) {
-		return genGated(r, v6)
+		return cliGenGated(r, v6)
 	}
-	sc := mScenario{v6: v6, T: mT}
+	sc := cliMScenario{v6: v6, T: cliMT}
 	nc := []int{1, 1, 2, 2, 2, 3, 3, 4, 5, 6, 8}[r.Intn(11)]
 	pool := r.Range(1, 3)
 	sc.cap = r.Range(0, 5)
 	sc.n = []int{1, 1, 2, 2, 3, -1}[r.Intn(6)]
 	tags := []string{fmt.Sprintf("callers=%d", nc), fmt.Sprintf("xids=%d", pool), fmt.Sprintf("cap=%d", sc.cap), fmt.Sprintf("n=%d", sc.n)}
 	for i := 0; i < nc; i++ {
-		sc.callers = append(sc.callers, mCaller{xid: r.Range(1, pool), matchNil: r.Chance(1, 3)})
+		sc.callers = append(sc.callers, cliMCaller{xid: r.Range(1, pool), matchNil: r.Chance(1, 3)})
 	}
 	seenX := map[int]bool{}
 	for _, c := range sc.callers {
@@ -38,33 +38,33 @@ func genMulti(r *Rng, v6 bool) (mScenario, []string) {
 		}
 		seenX[c.xid] = true
 	}
-	add := func(es ...mEv) { sc.groups = append(sc.groups, es) }
-	arr := func() mEv {
+	add := func(es ...cliMEv) { sc.groups = append(sc.groups, es) }
+	arr := func() cliMEv {
 		switch r.Intn(8) {
 		case 0:
-			return mEv{kind: "arr", ok: false, xid: r.Range(1, pool), tag: 1}
+			return cliMEv{kind: "arr", ok: false, xid: r.Range(1, pool), tag: 1}
 		case 1:
-			return mEv{kind: "arr", ok: true, xid: 9, tag: 1} // nobody's transaction
+			return cliMEv{kind: "arr", ok: true, xid: 9, tag: 1} // nobody's transaction
 		default:
-			return mEv{kind: "arr", ok: true, xid: r.Range(1, pool), tag: r.Intn(2)}
+			return cliMEv{kind: "arr", ok: true, xid: r.Range(1, pool), tag: r.Intn(2)}
 		}
 	}
 	next := 0
 	cancelled := 0
 	closed := false
-	var last *mEv
+	var last *cliMEv
 	steps := r.Range(4, 22)
 	for s := 0; s < steps; s++ {
 		switch w := r.Intn(16); {
 		case w < 3 && next < nc:
 			if next > 0 && r.Chance(3, 4) {
-				add(mEv{kind: "adv", k: 1_000_000})
+				add(cliMEv{kind: "adv", k: 1_000_000})
 			}
 			if r.Chance(1, 5) {
-				add(mEv{kind: "call", i: next}, arr())
+				add(cliMEv{kind: "call", i: next}, arr())
 				tags = append(tags, "racing-group")
 			} else {
-				add(mEv{kind: "call", i: next})
+				add(cliMEv{kind: "call", i: next})
 			}
 			next++
 		case w < 8:
@@ -75,31 +75,31 @@ func genMulti(r *Rng, v6 bool) (mScenario, []string) {
 			add(*last) // duplicate datagram
 			tags = append(tags, "duplicate")
 		case w < 11:
-			add(mEv{kind: "tick"})
+			add(cliMEv{kind: "tick"})
 		case w < 12 && next > 0:
-			add(mEv{kind: "can", i: r.Intn(next)})
+			add(cliMEv{kind: "can", i: r.Intn(next)})
 			cancelled++
 		case w < 13:
 			m := sc.cap + r.Range(1, 3)
-			var g []mEv
+			var g []cliMEv
 			x := r.Range(1, pool)
 			for k := 0; k < m; k++ {
-				g = append(g, mEv{kind: "arr", ok: true, xid: x, tag: 0})
+				g = append(g, cliMEv{kind: "arr", ok: true, xid: x, tag: 0})
 			}
 			if r.Chance(1, 2) {
-				g = append(g, mEv{kind: "arr", ok: true, xid: x, tag: 1})
+				g = append(g, cliMEv{kind: "arr", ok: true, xid: x, tag: 1})
 			}
 			add(g...)
 			tags = append(tags, "burst>cap")
 		case w < 14 && next > 0:
-			add(arr(), mEv{kind: "can", i: r.Intn(next)})
+			add(arr(), cliMEv{kind: "can", i: r.Intn(next)})
 			tags = append(tags, "racing-group")
 		case w < 15 && nc <= 3 && !closed:
 			if r.Chance(1, 3) {
-				add(arr(), mEv{kind: "clo"})
+				add(arr(), cliMEv{kind: "clo"})
 				tags = append(tags, "racing-group")
 			} else {
-				add(mEv{kind: "clo"})
+				add(cliMEv{kind: "clo"})
 			}
 			closed = true
 			tags = append(tags, "close-mid-script")
@@ -108,66 +108,74 @@ func genMulti(r *Rng, v6 bool) (mScenario, []string) {
 		}
 	}
 	for i := 0; i < next; i++ {
-		add(mEv{kind: "can", i: i})
+		add(cliMEv{kind: "can", i: i})
 	}
-	add(mEv{kind: "clo"})
+	add(cliMEv{kind: "clo"})
 	return sc, tags
 }
 
-// genGated: scenarios with a blocking matcher, which is what lets the
+// cliGenGated: scenarios with a blocking matcher, which is what lets the
 // transaction buffer fill up and parks the receive loop on it while it holds
 // pendingMu (the states C11's Close clause and the cancel() defect are about).
-func genGated(r *Rng, v6 bool) (mScenario, []string) {
-	sc := mScenario{v6: v6, T: mT}
+func cliGenGated(r *Rng, v6 bool) (cliMScenario, []string) {
+	sc := cliMScenario{v6: v6, T: cliMT}
 	sc.cap = r.Range(0, 3)
 	sc.n = r.Range(1, 2)
-	a := mCaller{xid: 1, matchNil: r.Chance(1, 2), gated: true}
-	b := mCaller{xid: 1, matchNil: r.Chance(1, 2)}
-	sc.callers = []mCaller{a, b}
-	add := func(es ...mEv) { sc.groups = append(sc.groups, es) }
-	add(mEv{kind: "call", i: 0})
+	a := cliMCaller{xid: 1, matchNil: r.Chance(1, 2), gated: true}
+	b := cliMCaller{xid: 1, matchNil: r.Chance(1, 2)}
+	sc.callers = []cliMCaller{a, b}
+	add := func(es ...cliMEv) { sc.groups = append(sc.groups, es) }
+	add(cliMEv{kind: "call", i: 0})
 	fill := sc.cap + 2
 	for k := 0; k < fill; k++ {
-		add(mEv{kind: "arr", ok: true, xid: 1, tag: 0})
+		add(cliMEv{kind: "arr", ok: true, xid: 1, tag: 0})
 	}
 	tags := []string{"gated-matcher", "buffer-full-loop-parked", fmt.Sprintf("cap=%d", sc.cap)}
-	switch r.Intn(3) {
+	switch r.Intn(4) {
+	case 3:
+		// a datagram for ANOTHER transaction reaches the socket while the loop is parked (so it
+		// stays in the socket queue); the call with that id is made afterwards
+		tags = append(tags, "datagram-queued-before-its-call")
+		b.xid = 2
+		sc.callers[1] = b
+		add(cliMEv{kind: "arr", ok: true, xid: 2, tag: 1})
+		add(cliMEv{kind: "call", i: 1}, cliMEv{kind: "rel", i: 0, k: 100})
 	case 0:
 		tags = append(tags, "deadline-then-concurrent-register")
-		add(mEv{kind: "tick"})
-		add(mEv{kind: "call", i: 1}, mEv{kind: "rel", i: 0, k: []int64{1, 2, 100}[r.Intn(3)]})
+		add(cliMEv{kind: "tick"})
+		add(cliMEv{kind: "call", i: 1}, cliMEv{kind: "rel", i: 0, k: []int64{1, 2, 100}[r.Intn(3)]})
 		if r.Chance(1, 2) {
-			add(mEv{kind: "arr", ok: true, xid: 1, tag: 1})
+			add(cliMEv{kind: "arr", ok: true, xid: 1, tag: 1})
 		}
-		add(mEv{kind: "rel", i: 0, k: 100})
+		add(cliMEv{kind: "rel", i: 0, k: 100})
 		if r.Chance(1, 2) {
-			add(mEv{kind: "tick"})
+			add(cliMEv{kind: "tick"})
 		}
 	case 1:
 		tags = append(tags, "close-while-loop-parked")
-		add(mEv{kind: "clo"})
-		add(mEv{kind: "rel", i: 0, k: []int64{1, 100}[r.Intn(2)]})
-		add(mEv{kind: "rel", i: 0, k: 100})
+		add(cliMEv{kind: "clo"})
+		add(cliMEv{kind: "rel", i: 0, k: []int64{1, 100}[r.Intn(2)]})
+		add(cliMEv{kind: "rel", i: 0, k: 100})
 	default:
 		tags = append(tags, "cancel-while-loop-parked")
-		add(mEv{kind: "can", i: 0})
-		add(mEv{kind: "rel", i: 0, k: 1})
-		add(mEv{kind: "rel", i: 0, k: 100})
-		add(mEv{kind: "call", i: 1})
-		add(mEv{kind: "arr", ok: true, xid: 1, tag: 1})
+		add(cliMEv{kind: "can", i: 0})
+		add(cliMEv{kind: "rel", i: 0, k: 1})
+		add(cliMEv{kind: "rel", i: 0, k: 100})
+		add(cliMEv{kind: "call", i: 1})
+		add(cliMEv{kind: "arr", ok: true, xid: 1, tag: 1})
 	}
-	add(mEv{kind: "rel", i: 0, k: 100})
-	add(mEv{kind: "can", i: 0})
-	add(mEv{kind: "can", i: 1})
-	add(mEv{kind: "clo"})
+	add(cliMEv{kind: "rel", i: 0, k: 100})
+	add(cliMEv{kind: "can", i: 0})
+	add(cliMEv{kind: "can", i: 1})
+	add(cliMEv{kind: "clo"})
 	return sc, tags
 }
 
-// enumMulti: small exhaustive part: 2 callers, same or different xid, every
+// cliEnumMulti: small exhaustive part: 2 callers, same or different xid, every
 // order of {call.0, call.1, arr(x1,acc), arr(x1,rej)} as singleton groups.
-func enumMulti(v6 bool) func(emit func(string)) {
+func cliEnumMulti(v6 bool) func(emit func(string)) {
 	return func(emit func(string)) {
-		evs := []mEv{{kind: "call", i: 0}, {kind: "call", i: 1}, {kind: "arr", ok: true, xid: 1, tag: 1}, {kind: "arr", ok: true, xid: 1, tag: 0}, {kind: "tick"}}
+		evs := []cliMEv{{kind: "call", i: 0}, {kind: "call", i: 1}, {kind: "arr", ok: true, xid: 1, tag: 1}, {kind: "arr", ok: true, xid: 1, tag: 0}, {kind: "tick"}}
 		var perm func(cur []int, used int)
 		for _, same := range []bool{true, false} {
 			for _, m := range []bool{true, false} {
@@ -178,11 +186,11 @@ func enumMulti(v6 bool) func(emit func(string)) {
 							if same {
 								x2 = 1
 							}
-							sc := mScenario{v6: v6, T: mT, n: 2, cap: cp, callers: []mCaller{{xid: 1, matchNil: m}, {xid: x2, matchNil: !m}}}
+							sc := cliMScenario{v6: v6, T: cliMT, n: 2, cap: cp, callers: []cliMCaller{{xid: 1, matchNil: m}, {xid: x2, matchNil: !m}}}
 							for _, k := range cur {
-								sc.groups = append(sc.groups, []mEv{evs[k]})
+								sc.groups = append(sc.groups, []cliMEv{evs[k]})
 							}
-							sc.groups = append(sc.groups, []mEv{{kind: "can", i: 0}}, []mEv{{kind: "can", i: 1}}, []mEv{{kind: "clo"}})
+							sc.groups = append(sc.groups, []cliMEv{{kind: "can", i: 0}}, []cliMEv{{kind: "can", i: 1}}, []cliMEv{{kind: "clo"}})
 							emit(sc.line())
 							return
 						}
@@ -201,7 +209,7 @@ func enumMulti(v6 bool) func(emit func(string)) {
 
 // ---- oracle c10 (implementation only)
 
-func checkC10(sc mScenario, r mResult) (string, string) {
+func cliCheckC10(sc cliMScenario, r cliMResult) (string, string) {
 	if r.status == "hang" {
 		return "hang", "scenario did not finish"
 	}
@@ -214,7 +222,7 @@ func checkC10(sc mScenario, r mResult) (string, string) {
 			singleton = false
 		}
 	}
-	byIdx := map[int]mInjected{}
+	byIdx := map[int]cliMInjected{}
 	for _, in := range r.injected {
 		byIdx[in.idx] = in
 	}
@@ -246,7 +254,10 @@ func checkC10(sc mScenario, r mResult) (string, string) {
 			if !mc.matchNil && in.tag != 1 {
 				return "matcher", fmt.Sprintf("call %d returned datagram #%d, which its matcher rejects", i, idx)
 			}
-			if in.group < c.callGroup || in.group > c.retGroup {
+			if in.group < c.callGroup {
+				return "stale-datagram", fmt.Sprintf("call %d (made in group %d) returned datagram #%d, which reached the socket before the call was made (group %d)", i, c.callGroup, idx, in.group)
+			}
+			if in.group > c.retGroup {
 				return "not-in-flight", fmt.Sprintf("call %d (groups %d..%d) returned datagram #%d injected in group %d", i, c.callGroup, c.retGroup, idx, in.group)
 			}
 			// first such: only decidable from outside when nothing races and
@@ -285,12 +296,13 @@ func checkC10(sc mScenario, r mResult) (string, string) {
 	return "", ""
 }
 
-func oracleC10(r *Rng, n int, thorough bool, seeds []string) *OracleResult {
+func cliOracleC10(r *Rng, n int, thorough bool, seeds []string) *OracleResult {
 	res := &OracleResult{Tags: map[string]int{}}
 	seen := map[uint64]struct{}{}
-	run := func(sc mScenario, tags []string) {
+	run := func(sc cliMScenario, tags []string) {
 		line := sc.line()
-		out := runMulti(sc)
+		cliNoteLine(line)
+		out := cliRunMulti(sc)
 		res.Evaluations++
 		if len(sc.callers) > 1 || len(sc.groups) > 4 {
 			seen[hashStr(line)] = struct{}{}
@@ -298,7 +310,7 @@ func oracleC10(r *Rng, n int, thorough bool, seeds []string) *OracleResult {
 		for _, t := range tags {
 			res.Tags[t]++
 		}
-		if cls, what := checkC10(sc, out); cls != "" {
+		if cls, what := cliCheckC10(sc, out); cls != "" {
 			res.fail(Failure{Oracle: "c10", Input: line, What: what, Class: cls})
 		}
 		if len(res.Samples) < 3 {
@@ -314,12 +326,12 @@ func oracleC10(r *Rng, n int, thorough bool, seeds []string) *OracleResult {
 		if len(toks) > 1 && (toks[0] == "client4m" || toks[0] == "client6m") {
 			func() {
 				defer func() { recover() }()
-				run(parseMScenario(toks[0], toks[1:]), []string{"seed"})
+				run(cliParseMScenario(toks[0], toks[1:]), []string{"seed"})
 			}()
 		}
 	}
 	for i := 0; i < n; i++ {
-		sc, tags := genMulti(r.Fork(), i%2 == 1)
+		sc, tags := cliGenMulti(r.Fork(), i%2 == 1)
 		run(sc, tags)
 	}
 	res.Distinct = len(seen)
@@ -336,14 +348,14 @@ func init() {
 		register(&Stream{
 			Name: name,
 			Gen: func(r *Rng, thorough bool) (string, []string) {
-				sc, tags := genMulti(r, v6)
+				sc, tags := cliGenMulti(r, v6)
 				return sc.line(), tags
 			},
-			Exec:       execMulti,
+			Exec:       cliExecMulti,
 			Nontrivial: func(line, out string) bool { return strings.Contains(out, ",") || strings.Count(line, ";") > 4 },
-			Enumerate:  enumMulti(v6),
-			Compare:    compareSetOrWild,
+			Enumerate:  cliEnumMulti(v6),
+			Compare:    cliCompareSetOrWild,
 		})
 	}
-	registerOracle(&Oracle{Name: "c10", Run: oracleC10})
+	registerOracle(&Oracle{Name: "c10", Run: cliCrashGuard("c10", cliOracleC10)})
 }
